@@ -383,8 +383,12 @@ def l3(ctx):
     ctx.check(tok_lits >= {"(", ")", "[", "]", ":=", "?", "$"}, "tokenizer-literals", "the tokenizer dispatches on %s" % sorted(tok_lits), "the tokenizer no longer dispatches on all of ( ) [ ] := ? $ (has %s)" % sorted(tok_lits), where_of(t))
     mp = [b for b in crate.by_name.get("parse", []) if "MultiPattern" in (b.impl_self or "") and (b.file or "").endswith("parse.rs")]
     mp_lits = set()
-    for b in mp:
+    for b0 in mp:
+        b = mir.inline_view(crate, b0)        # the per-equation part may be a helper
         for c in b.calls:
+            if c.callee and c.callee.name in ("split", "split_once", "splitn") and c.args[-1]["k"] == "const" and not b.blocks[c.bb]["cleanup"]:
+                mp_lits.add(re.sub(r"^['\"]|['\"]$", "", c.args[-1]["text"]))
+                continue
             if c.callee and c.callee.name == "split" and c.args[1]["k"] == "const":
                 mp_lits.add(re.sub(r"^['\"]|['\"]$", "", c.args[1]["text"]))
     ctx.check(mp_lits == {",", "=="}, "multipattern-separators", "MultiPattern::parse splits on %s" % sorted(mp_lits), "MultiPattern::parse splits on %s, expected ',' and '=='" % sorted(mp_lits))
@@ -400,7 +404,7 @@ def l3(ctx):
     disp = {}
     for b in crate.fns():
         if b.name == "fmt" and (b.impl_trait or "").endswith("fmt::Display") and (b.file or "").endswith("parse.rs"):
-            disp[b.impl_self] = templates(crate, b)
+            disp[b.impl_self] = templates(crate, mir.inline_view(crate, b))       # an arm may have been split off into a helper
     ctx.floor("Display impls in parse.rs", len(disp), 2)
     pat = [v for k, v in disp.items() if "pattern::Pattern" in k]
     mpd = [v for k, v in disp.items() if "MultiPattern" in k]
